@@ -132,6 +132,95 @@ func nsModelled(c caseT) bool {
 	return true
 }
 
+// chainModelled: what ConcNsChain.v has - a chain static <- A.. <- M <- C.. with exactly one file based loader, the
+// several-namespace loader M, and Load / Has through any loader of the chain of names in M's namespaces.
+// Returns the number of parented loaders above and below M.
+func chainModelled(c caseT) (above, below int, ok bool) {
+	m := -1
+	for i, l := range c.Cfg {
+		if i == 0 {
+			if l.Parent != -1 || l.File {
+				return 0, 0, false
+			}
+			continue
+		}
+		if l.Parent != i-1 {
+			return 0, 0, false
+		}
+		if l.File {
+			if !l.Multi || m >= 0 {
+				return 0, 0, false
+			}
+			m = i
+		}
+	}
+	if m < 1 {
+		return 0, 0, false
+	}
+	for _, th := range c.Prog {
+		for _, o := range th {
+			if (o.Kind != "Load" && o.Kind != "Has") || o.L < 1 || o.L >= len(c.Cfg) || o.S < 1 {
+				return 0, 0, false
+			}
+		}
+	}
+	return m - 1, len(c.Cfg) - 1 - m, true
+}
+
+func gNsRes(r opRes) string {
+	switch r.Kind {
+	case "found":
+		if r.Found {
+			// (which instantiation of the file made the value: 0 in every run that instantiates once)
+			return fmt.Sprintf("NFound (Some %d%%nat)", (r.Val-100)/1000)
+		}
+		return "NFound None"
+	case "bool":
+		return "NBool " + lib.GBool(r.B)
+	case "fileerr":
+		return "NFileErr"
+	case "err":
+		return "NErr"
+	}
+	return "NFault"
+}
+
+func gChainCase(c caseT, rr *runResult) string {
+	above, below, _ := chainModelled(c)
+	l := c.Cfg[above+1]
+	fs := make([]string, len(l.Files))
+	for i, n := range l.Files {
+		fs[i] = fmt.Sprintf("%d%%N", n)
+	}
+	bad := make([]string, len(l.Bad))
+	for i, n := range l.Bad {
+		bad[i] = fmt.Sprintf("%d%%N", n)
+	}
+	ts := make([]string, len(c.Prog))
+	obs := make([]string, len(c.Prog))
+	for t, th := range c.Prog {
+		os := make([]string, len(th))
+		rs := make([]string, len(th))
+		for i, o := range th {
+			k := "CLoad"
+			if o.Kind == "Has" {
+				k = "CHas"
+			}
+			os[i] = fmt.Sprintf("%s %d%%nat %d%%nat %d%%N", k, o.L, o.S-1, o.N)
+			rs[i] = gNsRes(rr.Results[t][i])
+		}
+		ts[t] = lib.GList(os, "cop")
+		obs[t] = fmt.Sprintf("(%s, %d%%nat)", lib.GList(rs, "nres"), rr.Parses[t])
+	}
+	return fmt.Sprintf("(mkCC (mkNC %s %s %d%%nat) %d%%nat %d%%nat,\n    %s,\n    %s,\n    %s)", lib.GList(fs, "N"), lib.GList(bad, "N"),
+		len(multiNs)-1, above, below, lib.GList(ts, "list cop"), gSched(rr.Sched), lib.GList(obs, "nobs"))
+}
+
+func chainCasesFile() *lib.CasesFile {
+	return &lib.CasesFile{Imports: []string{"Model.Base", "Model.ConcNs", "Model.ConcNsChain", "Corr.CorrC13"}, Typ: "chain_case",
+		Obligations: map[string]string{"nschain_model": "chain_mismatches cases"}}
+}
+
 func gNsCase(c caseT, rr *runResult) string {
 	l := c.Cfg[1]
 	fs := make([]string, len(l.Files))
@@ -187,6 +276,7 @@ func nsCasesFile() *lib.CasesFile {
 func runNs(cfg *lib.Config, res *lib.Result, rng *lib.Rng) {
 	e := &explorer{cfg: cfg, res: res, baseline: map[string]string{}}
 	file := nsCasesFile()
+	chainFile := chainCasesFile()
 	perProgram, nRandom2, nRandom3, nPct := 300, 8, 4, 8
 	e.coqMax, e.coqEvery = 300, 22
 	if cfg.Thorough() {
@@ -196,6 +286,13 @@ func runNs(cfg *lib.Config, res *lib.Result, rng *lib.Rng) {
 	e.emit = func(c caseT, rr *runResult) {
 		if nsModelled(c) {
 			file.Add(gNsCase(c, rr), c.input(rr.Sched))
+			e.coqCases++
+			// every third of them also through the chain model (no parented loader above or below: it must agree)
+			if e.coqCases%3 == 0 {
+				chainFile.Add(gChainCase(c, rr), c.input(rr.Sched))
+			}
+		} else if _, _, ok := chainModelled(c); ok {
+			chainFile.Add(gChainCase(c, rr), c.input(rr.Sched))
 			e.coqCases++
 		}
 	}
@@ -237,5 +334,7 @@ func runNs(cfg *lib.Config, res *lib.Result, rng *lib.Rng) {
 	res.Extra["namespaces_schedules_run"] = e.nRuns
 	res.Extra["namespaces_model_cases"] = e.coqCases
 	res.Extra["namespaces"] = "SmartPath with the namespaces " + strings.Trim(fmt.Sprint(multiNs), "[]") + " (loader.NewSmartPath, loader.SmartPathFactories)"
+	res.Extra["namespaces_chain_model_cases"] = len(chainFile.Cases)
 	res.CorrFiles = append(res.CorrFiles, file.WriteTo(cfg.Out, "cases_ns"))
+	res.CorrFiles = append(res.CorrFiles, chainFile.WriteTo(cfg.Out, "cases_nschain"))
 }
